@@ -429,9 +429,6 @@ pub fn c09_case(ctx: &mut Ctx, _rng: &mut Rng, stage: &str) {
     }
     // ---- shard 0: the full image through hostile readers, wrong magic, writer faults
     for mode in 0..3u8 {
-        if mode == 0 && n > 600_000 {
-            continue;
-        }
         ctx.eval();
         let rdr = ChunkReader { data: &img, pos: 0, rng: Rng(which + mode as u64), mode, fail_at: None };
         match guarded(|| Dictionary::read(rdr)) {
